@@ -10,6 +10,8 @@ opmap = {"add_op":"Add","subtract_op":"Subtract","divide_op":"Divide","multiply_
  "not_equals_op":"NotEquals","not_op":"Not","and_op":"And","or_op":"Or","min_op":"Min","max_op":"Max","pow_op":"Pow","floor_op":"Floor",
  "ceiling_op":"Ceiling","int_op":"Int","float_op":"Float","has":"Has","hasnt":"Hasnt","intersect_op":"Intersect","list_min_op":"ListMin",
  "list_max_op":"ListMax","all_op":"All","count_op":"Count","value_of_list_op":"ValueOfList","inverse_op":"Invert"}
+cmpmap = {"greater_op": ("*op1 > op2", "(*op1).vx_gt(op2)"), "less_op": ("*op1 < op2", "(*op1).vx_lt(op2)"),
+          "greater_than_or_equals_op": ("*op1 >= op2", "(*op1).vx_ge(op2)"), "less_than_or_equals_op": ("*op1 <= op2", "(*op1).vx_le(op2)")}
 extra = {
  "negate_op": "    //@exprmap Value::new_f32(-op1) => Value::new_f32(f32_neg(*op1))\n",
  "min_op": "    //@exprmap f32::min(*op1, op2) => f32_min(*op1, op2)\n    //@exprmap i32::min(*op1, op2) => i32_min(*op1, op2)\n",
@@ -19,6 +21,13 @@ extra = {
  "equal_op": "    //@exprmap op1.string.eq(&op2.string) => string_eq(&op1.string, &op2.string)\n    //@exprmap op1.eq(op2) => op1.eq(op2)\n",
  "not_equals_op": "    //@exprmap op1.string.eq(&op2.string) => string_eq(&op1.string, &op2.string)\n",
 }
+for f_, (a_, b_) in cmpmap.items():
+    extra[f_] = extra.get(f_, "") + f"    //@exprmap {a_} => {b_}\n"
+extra["equal_op"] += "    //@exprmap *op1 == op2 => (*op1).vx_eq(op2)\n"
+extra["not_equals_op"] += "    //@exprmap *op1 != op2 => (*op1).vx_ne(op2)\n"
+extra["and_op"] = "    //@exprmap *op1 != 0.0 => (*op1).vx_ne(0.0)\n    //@exprmap op2 != 0.0 => op2.vx_ne(0.0)\n"
+extra["or_op"] = "    //@exprmap *op1 != 0.0 => (*op1).vx_ne(0.0)\n    //@exprmap op2 != 0.0 => op2.vx_ne(0.0)\n"
+extra["not_op"] = "    //@exprmap *op1 == 0.0 => (*op1).vx_eq(0.0)\n"
 out = []
 for f in binops + unops:
     n = 2 if f in binops else 1
